@@ -56,7 +56,10 @@ func c16SharedOutput(r *core.Run) {
 			r.Inconclusive("fund: " + err.Error())
 			return sched.Result{}
 		}
-		shared := client.NewOutput(rng, act.Id, 64, "")
+		// the mint request carries a fresh output first and the shared one second, so that a
+		// save that fails on the second row shows whether the first one stayed behind
+		fresh := client.NewOutput(rng, act.Id, 32, "")
+		shared := client.NewOutput(rng, act.Id, 32, "")
 		as8 := shared
 		as8.Amount = 8
 		issuedBefore, err := env.M.IssuedEcash()
@@ -70,7 +73,7 @@ func c16SharedOutput(r *core.Run) {
 		env.Hub.SetController(s)
 		var sigsA, sigsB cashu.BlindedSignatures
 		var errA, errB error
-		s.Go(env.Hub, "A", func() { sigsA, errA = env.MintTokens(q.Id, cashu.BlindedMessages{shared.BM()}, "") })
+		s.Go(env.Hub, "A", func() { sigsA, errA = env.MintTokens(q.Id, cashu.BlindedMessages{fresh.BM(), shared.BM()}, "") })
 		s.Go(env.Hub, "B", func() { sigsB, errB = env.Swap(coins, cashu.BlindedMessages{as8.BM()}) })
 		ok := s.Run()
 		env.Hub.SetController(nil)
@@ -116,8 +119,20 @@ func c16SharedOutput(r *core.Run) {
 			r.Violate(fmt.Sprintf("sched=mint|swap(shared-B_);issued-total-differs:%s", cmpWord(int(delta), int(handed))),
 				fmt.Sprintf("the two requests were handed signatures worth %d, the issued total rose by %d", handed, delta), sig, wit)
 		}
-		_, restored, rerr := env.Restore(cashu.BlindedMessages{shared.BM()})
+		_, restored, rerr := env.Restore(cashu.BlindedMessages{fresh.BM(), shared.BM()})
 		if rerr == nil {
+			for _, rs := range restored {
+				handedOut := false
+				for _, sg := range handedSigs {
+					if rs.C_ == sg.C_ && rs.Amount == sg.Amount && rs.Id == sg.Id {
+						handedOut = true
+					}
+				}
+				if !handedOut {
+					r.Violate("sched=mint|swap(shared-B_);restorable-signature-never-handed-out",
+						fmt.Sprintf("restore returns a signature of %d that neither request was handed (mint: %v, swap: %v): a refused request left it behind", rs.Amount, errA, errB), sig, wit)
+				}
+			}
 			for _, sg := range handedSigs {
 				found := false
 				for _, rs := range restored {
